@@ -77,6 +77,15 @@ def _run_history(flavour, ops, mask, warm):
                                                            '' if warm else ', none before the first step', ri, key, g, e,
                                                            '' if stale is None else ' (reg%d.ro is not the C3 order of its current bases)' % stale),
                             signature=sig)
+        # "nearest first" holds for every collector: per name lookupAll must give what lookup gives
+        for rj in got:
+            for key, val in got[rj].items():
+                if key[0] == 'lookupAll':
+                    for (nm, tag) in val:
+                        one = got[rj].get(('lookup', key[1], key[2], nm))
+                        if one != tag:
+                            raise Violation('%s history [%s]: reg%d.lookupAll%r maps %r to %r, lookup gives %r (nearest registry first)' % (
+                                flavour, RP.fmt(ops[:k + 1]), rj, key[1:], nm, tag, one), signature='C06:lookupAll-order:%s' % flavour)
         for rj in range(NREG):
             order = _c3(rj, u.reg_bases)
             if order is not None and list(u.regs[rj].ro) != [u.regs[x] for x in order]:
